@@ -51,11 +51,13 @@ MANIFEST = {
                  'rewrites under 4 hash seeds + electrical solve-and-compare oracle',
 }
 
-THEORY = ['FieldSec', 'Circuit', 'RewriteEquiv', 'RewriteBranch', 'RewriteMore', 'RewriteModel', 'RewriteKeyed', 'RewriteSem', 'RewriteCorr']
+THEORY = ['FieldSec', 'Circuit', 'RewriteEquiv', 'RewriteBranch', 'RewriteMore', 'RewriteModel', 'RewriteKeyed', 'RewriteSem', 'RewriteCorr', 'RewriteRenum']
 HASHSEEDS = [0, 1, 2, 3]
 TAGS = {1: 'polarity:V', 2: 'polarity:I', 3: 'polarity:ic:C-series', 4: 'polarity:ic:L-parallel', 5: 'ic-sum:L-series',
         6: 'ic-sum:C-parallel', 7: 'ic-mixed:C-series', 8: 'ic-mixed:L-parallel', 9: 'kw-mixed'}
-CODES = {1: 'netlists differ', 2: 'model raises, code returned', 3: 'code raised, model returns', 4: 'trace does not fit the model control flow'}
+CODES = {1: 'netlists differ', 2: 'model raises, code returned', 3: 'code raised, model returns', 4: 'trace does not fit the model control flow',
+         7: 'model of augment_node_map and the returned node map differ', 8: 'the node map violates its contract (injective on nodes and equipotential classes, reference node fixed, requested pairs honoured)',
+         9: 'self.equipotential_nodes violates its contract'}
 
 
 def log(msg):
@@ -84,6 +86,8 @@ CORPUS = [
     {'netlist': ['V1 1 0 step 5', 'R1 1 2 2', 'C1 2 3 3 1', 'C2 3 0 5 2', 'L1 2 0 3 1', 'L2 2 0 5 2'], 'op': 'simplify', 'args': {}, 's0': '3/2', 'tags': ['corpus', 'ok']},
     {'netlist': ['V1 1 0 step 5', 'R1 1 2 2', 'C2 2 0 2'], 'op': 'renumber', 'args': {}, 's0': '2', 'tags': ['corpus', 'renumber:none-arg']},
     {'netlist': ['V1 1 0 step 5', 'R1 1 2 2', 'C2 2 0 2 1', 'L1 2 3 1 2', 'R2 3 0 1'], 'op': 'renumber', 'args': {'node_map': {'1': '7', '2': 'a'}}, 's0': '2', 'tags': ['corpus', 'ok']},
+    {'netlist': ['V1 a 0 6', 'R1 a b 1', 'R2 b c 2', 'R3 c 0 3'], 'op': 'renumber', 'args': {'node_map': {'a': '2'}}, 's0': '2', 'tags': ['corpus', 'renumber_partial_small']},
+    {'netlist': ['V1 1 0 6', 'R1 1 2 1', 'R2 2 3 2', 'R3 3 0 3', 'W 3 3_1', 'R4 3_1 0 2'], 'op': 'renumber', 'args': {'node_map': {'3_1': '1', '1': 'x'}}, 's0': '2', 'tags': ['corpus', 'renumber_partial_wire']},
     {'netlist': ['V1 1 0 step 5', 'R1 1 2 2', 'C1 2 3 3 4', 'L1 3 0 5 1', 'R2 3 0 7', 'C2 2 0 2', 'L2 2 0 3'], 'op': 's_model', 'args': {}, 's0': '3/2', 'tags': ['corpus', 'ok']},
     {'netlist': ['V1 1 0 step 5', 'R1 1 2 2', 'C1 2 0 3', 'R2 2 0 7'], 'op': 'noisy_kill', 'args': {}, 's0': '3/2', 'tags': ['corpus', 'ok']},
     {'netlist': ['V1 1 0 5', 'SW1 1 2 no 5', 'R1 2 0 3', 'SW2 2 3 nc 2', 'R2 3 0 1'], 'op': 'switch_before', 'args': {'t': '3'}, 's0': '2', 'tags': ['corpus', 'replace_switches_before:inverted']},
@@ -117,15 +121,20 @@ def gen_cases(rng, tier):
             c = {'netlist': lines, 'tags': nl['tags'] + [op], 'op': op, 'args': {}, 's0': '%d/%d' % (rng.randint(1, 9), rng.randint(1, 4))}
             if op == 'renumber_map':
                 c['op'] = 'renumber'
-                nodes = sorted({t for l in lines for t in l.split()[1:3]} - {'0'})
-                pick = rng.sample(nodes, rng.randint(1, len(nodes)))
-                pool = ['a', 'b', 'x9', '7', '11', 'out', 'm_1'][:]
-                rng.shuffle(pool)
-                c['args'] = {'node_map': {n: pool[k] for k, n in enumerate(pick[:len(pool)])}}
+                c['args'] = {'node_map': G.gen_node_map(rng, lines, rng.choice(['small', 'big', 'sym', 'mixed']))}
             if op == 'subs':
                 c['netlist'], c['point'] = G.symbolise(rng, lines)
                 c['args'] = {'subs': c['point']}
             cases.append(c)
+    # renumber with partial maps: numeral targets inside / above the range of fresh numbers, symbolic, mixed; with wires
+    for i in range(12 if tier == 'quick' else 80):
+        nl = G.gen_netlist(rng, 'mixed', rng.choice(['none', 'unequal']), 'same', extras=False, small=rng.random() < 0.5)
+        lines = nl['lines']
+        for _ in range(rng.choice([0, 0, 1, 2])):
+            lines = G.add_wire_split(rng, lines)
+        mode = ['small', 'small', 'mixed', 'big', 'sym', 'small'][i % 6]
+        cases.append({'netlist': lines, 'tags': nl['tags'] + ['renumber_map_' + mode], 'op': 'renumber',
+                      'args': {'node_map': G.gen_node_map(rng, lines, mode)}, 's0': '%d/%d' % (rng.randint(1, 9), rng.randint(1, 4))})
     n_sw = 8 if tier == 'quick' else 40
     for i in range(n_sw):
         cases.append(G.gen_switch_case(rng))
@@ -133,7 +142,7 @@ def gen_cases(rng, tier):
 
 
 # ---- Coq cases file ------------------------------------------------------------------
-HEADER = ('Require Import LT.FieldSec LT.RewriteModel LT.RewriteCorr.\n'
+HEADER = ('Require Import LT.FieldSec LT.RewriteModel LT.RewriteCorr LT.RewriteRenum.\n'
           'From Coq Require Import List Arith. Import ListNotations.\nLocal Open Scope nat_scope.\n')
 
 
@@ -185,50 +194,64 @@ def other_check(idx, case, wr):
     op = case['op']
     enc = E.Enc(wr['orig'])
     net = enc.net(wr['orig'])
-    if 'exc' in wr:
+    if 'exc' in wr and op != 'renumber':
         return None, 'raised ' + wr['exc']
     defs = ['Definition n_o%d : list elemQ := %s.' % (idx, net)]
     if op in ('copy', 'expand', 'subs'):
         out = enc.net(wr['new'])
         expr = 'net_eqb n_o%d o_o%d' % (idx, idx)
     elif op == 'renumber':
-        nm = None
+        call, rec = None, None
         for ent in wr.get('log', []):
-            if ent[0] == 'node_map':
-                nm = ent[1]
-        if nm is None:
-            nm = dict(case.get('args', {}).get('node_map') or {})
-        pairs = []
-        # new names get fresh ids after all old ones
-        for old in list(enc.node_id):
-            pass
-        for old, new in nm.items():
-            if old in enc.node_id:
-                pairs.append((old, new))
-        base = dict(enc.node_id)
-        newid = {}
-        nxt = [max(base.values()) + 1]
+            if ent[0] == 'node_map_call':
+                call = ent
+            elif ent[0] == 'node_map':
+                rec = ent[1]
+        umap = list((case.get('args', {}).get('node_map') or {}).items())
+        if call is None and 'exc' not in wr:
+            rec = [[k, v] for k, v in umap]          # complete map: used as given
+        syms = {}
 
-        def nid(name):
-            if name == '0':
-                return 0
-            if name not in newid:
-                newid[name] = nxt[0]
-                nxt[0] += 1
-            return newid[name]
-        mp = '[%s]' % '; '.join('(%d, %d)' % (base[o], nid(n)) for o, n in pairs)
+        def nn(name):
+            name = str(name)
+            if re.fullmatch(r'\d+', name):
+                return '(NdNum %d)' % int(name)
+            m_ = re.fullmatch(r'(.+)_(\d+)', name)
+            if m_:
+                return '(NdSub %s %d)' % (nn(m_.group(1)), int(m_.group(2)))
+            if name not in syms:
+                syms[name] = len(syms)
+            return '(NdSym %d)' % syms[name]
+        ids = dict(enc.node_id)
+        ids.setdefault('0', 0)
+
+        def idof(name):
+            if name not in ids:
+                ids[name] = max(ids.values()) + 1
+            return ids[name]
+        for k_, v_ in (rec or []):
+            idof(k_)
+            idof(v_)
+        for k_, v_ in umap:
+            idof(v_)
+        new_elems = wr.get('new', [])
+        for e_ in new_elems:
+            for n_ in e_['nodes']:
+                idof(n_)
         enc2 = E.Enc(wr['orig'])
-        enc2.node_id = {'0': 0}
-        enc2.node_id.update(newid)
-        # nodes that are not in the map keep their name: they must keep their id
-        for o, i_ in base.items():
-            if o not in nm and o not in enc2.node_id:
-                enc2.node_id[o] = i_
-        out = enc2.net(wr['new'])
+        enc2.node_id = ids
+        out = enc2.net(new_elems)
         if enc2.bad:
             return None, enc2.bad
-        defs.append('Definition m_o%d : list (nat * nat) := %s.' % (idx, mp))
-        expr = 'rename_code (lookup_nat m_o%d) n_o%d o_o%d && map_ok m_o%d n_o%d' % (idx, idx, idx, idx, idx)
+        tab = '[%s]' % '; '.join('(%s, %d)' % (nn(k_), v_) for k_, v_ in ids.items())
+        classes = '[%s]' % '; '.join('(%s, [%s])' % (nn(k_), '; '.join(nn(x) for x in v_)) for k_, v_ in (call[2] if call else []))
+        rank = '[%s]' % '; '.join(nn(x) for x in (call[3] if call else []))
+        um = '[%s]' % '; '.join('(%s, %s)' % (nn(k_), nn(v_)) for k_, v_ in umap)
+        recd = 'None' if rec is None or 'exc' in wr else '(Some [%s])' % '; '.join('(%s, %s)' % (nn(k_), nn(v_)) for k_, v_ in rec)
+        defs.append('Definition o_o%d : list elemQ := %s.' % (idx, out))
+        expr = 'NAT:renumber_code %s n_o%d o_o%d %s %s %s %s %s' % (tab, idx, idx, classes, rank, um, recd, 'true' if call else 'false')
+        contract = 'renumber_contract %s n_o%d o_o%d %s %s' % (tab, idx, idx, um, recd)
+        return '\n'.join(defs), (expr, contract)
     elif op == 's_model':
         d0 = len(enc.node_id)
         out = enc.net(wr['new'])
@@ -408,8 +431,11 @@ def run(tier='quick', replay=None):
                         meta[gid] = ('other_skip', ci, ri, expr)
                         gid += 1
                         continue
+                    contract = 'true'
+                    if isinstance(expr, tuple):
+                        expr, contract = expr
                     nat_expr = expr[4:] if expr.startswith('NAT:') else '(if %s then 0 else 1)' % expr
-                    items.append((gid, d, '(%d, %s, (true, true, true, true, @nil nat))' % (gid, nat_expr)))
+                    items.append((gid, d, '(%d, %s, (true, %s, true, true, @nil nat))' % (gid, nat_expr, contract)))
                     meta[gid] = ('other', ci, ri)
                     gid += 1
         shards = [items[i:i + 120] for i in range(0, len(items), 120)]
@@ -505,7 +531,7 @@ def run(tier='quick', replay=None):
                     nm = dict(c.get('args', {}).get('node_map') or {})
                     for ent in r.get('log', []):
                         if ent[0] == 'node_map':
-                            nm = ent[1]
+                            nm = dict(ent[1])
                     co = dict(c, node_rename=nm)
                 obad = G.oracle(co, r['orig'], r['new'], so, sn, r.get('log'))
             tags = []
@@ -523,6 +549,10 @@ def run(tier='quick', replay=None):
                     res.count('cases_meeting_all_theorem_preconditions')
             if c['op'] == 'renumber' and has_none_arg(r):
                 tags.append('renumber:none-arg')
+            if c['op'] == 'renumber' and flags is not None and not flags[1]:
+                tags.append('oracle-contract:augment_node_map')
+                add('oracle-contract:augment_node_map', 'renumber: ' + CODES[8], c, found_input=bool(obad), rewritten=r.get('text'),
+                    diff=(obad or [])[:6], correspondence='LT.RewriteRenum.nodemap_ok')
             if c['op'] == 's_model' and code == 5:
                 tags.append('s_model:L-ic-dc')
                 code = 0
@@ -540,6 +570,10 @@ def run(tier='quick', replay=None):
                 if c['op'] == 'renumber' and has_none_arg(r):
                     add('renumber:none-arg', 'renumber() prints an absent argument as the string None: the renumbered capacitor / '
                         'inductor / source gets a spurious symbolic argument', c, found_input=bool(obad), rewritten=r.get('text'))
+                elif c['op'] == 'renumber' and code == 9:
+                    add('oracle-contract:equipotential_nodes',
+                        'renumber: %s' % CODES[code], c, found_input=bool(obad), rewritten=r.get('text'), diff=(obad or [])[:6],
+                        correspondence='LT.RewriteRenum.nodemap_ok')
                 else:
                     res.disagreements.append({'case': c, 'code': code, 'hashseed': r.get('hashseed')})
                     add('correspondence:%s:%s' % (c['op'], code), 'model and implementation differ on %s (%s)' % (c['op'], CODES.get(code, code)),
@@ -577,7 +611,7 @@ def run(tier='quick', replay=None):
                             nm = dict(c.get('args', {}).get('node_map') or {})
                             for ent in r.get('log', []):
                                 if ent[0] == 'node_map':
-                                    nm = ent[1]
+                                    nm = dict(ent[1])
                             co = dict(c, node_rename=nm)
                         print('REPLAY oracle (solve both circuits): %s' % (G.oracle(co, r['orig'], r['new'], so, sn, r.get('log')) or 'retained voltages and currents agree'))
                     else:
